@@ -202,7 +202,7 @@ func check(c Case) (o ev.Outcome) {
 		if c.Stage2 != "" {
 			pre = "C06/after-" + c.Stage2
 		}
-		schema.CompareModules(&o, c.Set, obs, trees, canon.DiffOpts{Types: true, NS: true, Defaults: c.Stage2 != "deviation", SkipImplicitCaseNS: true, IfFeatures: true, Stmts: true}, pre, "instance-equals-expansion")
+		schema.CompareModules(&o, c.Set, obs, trees, canon.DiffOpts{Types: true, NS: true, Defaults: c.Stage2 != "deviation", IfFeatures: true, Stmts: true}, pre, "instance-equals-expansion")
 		if len(o.Violations) == 0 {
 			if s := sharedEntries(obs.MS); s != "" {
 				o.Violate("independent-copies", "C06/shared-node-object", "%s", s)
